@@ -162,6 +162,9 @@ static void String_Assign(var self, var obj) {
   }
 #endif
   
+  /* assigning a String to itself changes nothing (and must not read through the old buffer) */
+  if (val is s->val) { return; }
+  
   s->val = realloc(s->val, strlen(val) + 1);
   
 #if CELLO_MEMORY_CHECK == 1
@@ -248,7 +251,12 @@ static void String_Concat(var self, var obj) {
   }
 #endif
   
-  s->val = realloc(s->val, strlen(s->val) + strlen(c_str(obj)) + 1);
+  /* the argument may be this very String: take its length first and do not rely on its terminator */
+  bool itself = c_str(obj) is s->val;
+  size_t n = strlen(s->val);
+  size_t m = strlen(c_str(obj));
+  
+  s->val = realloc(s->val, n + m + 1);
   
 #if CELLO_MEMORY_CHECK == 1
   if (s->val is NULL) {
@@ -256,7 +264,8 @@ static void String_Concat(var self, var obj) {
   }
 #endif
   
-  strcat(s->val, c_str(obj));
+  memcpy(s->val + n, itself ? s->val : c_str(obj), m);
+  s->val[n + m] = '\0';
 }
 
 static void String_Resize(var self, size_t n) {
